@@ -105,16 +105,16 @@ def run_case(adoc, c, kind):
   from ttconv.filters.doc.lcd import LCDDocFilter
   doc0 = LD.build(adoc)
   before = LD.project(doc0)
-  H = LD.horizon(before)
+  ticks = LD.grid(before)
   try:
-    visb = [[o["tid"] for o in tick] for tick in LD.visible(doc0, H)]
+    visb = [[o["tid"] for o in tick] for tick in LD.visible(doc0, ticks)]
   except Exception as ex:  # pylint: disable=broad-except
     if kind == "family":
       raise T.MachineryError(f"ISD.from_model fails on a family document before the filter: {ex!r} {json.dumps(adoc)}")
     return None
   doc = LD.build(adoc)
   rec = {"kind": kind, "cfg": c, "before": before, "raised": "", "after": before, "raised2": "", "after2": before,
-         "obs_raised": "", "visb": visb, "obsa": [[] for _ in visb]}
+         "obs_raised": "", "ticks": ticks, "visb": visb, "obsa": [[] for _ in visb]}
   flt = LCDDocFilter(make_config(c))
   try:
     flt.process(doc)
@@ -123,7 +123,7 @@ def run_case(adoc, c, kind):
     return rec
   rec["after"] = LD.project(doc)
   try:
-    rec["obsa"] = LD.visible(doc, H)
+    rec["obsa"] = LD.visible(doc, ticks)
   except Exception as ex:  # pylint: disable=broad-except
     rec["obs_raised"] = type(ex).__name__
   try:
@@ -169,12 +169,27 @@ def features(rec, clause):
     f["region_ref_conflict"] = any(x["tid"] > 0 and len(refs_on_path(k + 1)) > 1 for k, x in enumerate(nodes))
   if clause == "configured_text_align":
     f["pta"] = rec["cfg"]["pta"]
-    f["regions_differ_in_text_align"] = len({r["ta"] for r in regs}) > 1
+    # a region was merged into a retained region that specifies another tts:textAlign
+    ta_of = {r["id"]: r["ta"] for r in regs}
+    kept = {r["id"] for r in rec["after"]["regions"]}
+    f["merged_regions_differ_in_text_align"] = any(
+      x["reg"] and x["reg"] not in kept and y["reg"] in ta_of and ta_of[x["reg"]] != ta_of[y["reg"]]
+      for x, y in zip(nodes, rec["after"]["nodes"]))
   if clause in ("configured_color", "styles_as_configured"):
     f["color_set"] = rec["cfg"]["color"] != "none"
   if clause in ("configured_bg_color", "styles_as_configured"):
     f["bg_set"] = rec["cfg"]["bg"] != "none"
   if clause == "text_timeline":
+    # shape of the divergence: only additional texts after the filter, all of them withheld before by conflicting references
+    conflicting = {x["tid"] for k, x in enumerate(nodes) if x["tid"] > 0 and len(refs_on_path(k + 1)) > 1}
+    extra = set()
+    lost = set()
+    for vb, oa in zip(rec["visb"], rec["obsa"]):
+      va = {o["tid"] for o in oa}
+      extra |= va - set(vb)
+      lost |= set(vb) - va
+    f["only_additional_texts_after"] = bool(extra) and not lost
+    f["additional_texts_all_had_conflicting_refs"] = bool(extra) and extra <= conflicting
     f["hides"] = any(hiding & (set(x["sty"]) | {s["p"] for s in x["steps"]}) for x in everything) or bool(hiding & set(bf["init"]["sty"]))
   return f
 
@@ -209,7 +224,7 @@ def validate(ctx, recs, deep, label):
       case = {"kind": rec["kind"], "cfg": rec["cfg"], "before": rec["before"], "raised": rec["raised"]}
       if not rec["raised"]:
         case.update({"after": rec["after"], "after_twice": rec["after2"], "raised_second_time": rec["raised2"],
-                     "snapshot_raised": rec["obs_raised"], "visible_before": rec["visb"], "visible_after": rec["obsa"]})
+                     "snapshot_raised": rec["obs_raised"], "ticks": rec["ticks"], "visible_before": rec["visb"], "visible_after": rec["obsa"]})
       ctx.violation(clause, case, f, f"{rec['kind']} document, cfg={json.dumps(rec['cfg'])}, {len(rec['before']['regions'])} region(s), "
                     f"{len(rec['before']['nodes'])} node(s)" + (f", raised {rec['raised']}" if rec["raised"] else ""))
   for k, v in notes.items():
@@ -242,7 +257,7 @@ def run(ctx):
   ctx.count("family_cases", len(recs))
 
   # code -> spec: seeded random richer documents
-  nrand = 12000 if deep else 700
+  nrand = 12000 if deep else 500
   skipped = 0
   made = 0
   while made < nrand:
